@@ -428,6 +428,33 @@ impl TransactionWorkspace {
         Ok(())
     }
 
+    /// Abandon this transaction without touching the store.
+    ///
+    /// Operations added with `add_operation` are only buffered in the workspace
+    /// until commit, so abandoning them needs no store restore. (Restoring the
+    /// begin-time checkpoint would also erase every block and every write that
+    /// other workspaces committed since this one began.)
+    ///
+    /// # Errors
+    ///
+    /// Returns an error if the transaction is committed or is being committed.
+    pub fn discard(&self) -> Result<()> {
+        let mut state = self.state.write();
+        match *state {
+            TransactionState::Committed => Err(ChainError::TransactionFailed(
+                "cannot rollback committed transaction".to_string(),
+            )),
+            TransactionState::Committing => Err(ChainError::TransactionFailed(
+                "cannot rollback transaction while it is being committed".to_string(),
+            )),
+            _ => {
+                *state = TransactionState::RolledBack;
+                drop(state);
+                Ok(())
+            },
+        }
+    }
+
     pub fn checkpoint_bytes(&self) -> &[u8] {
         &self.checkpoint_bytes
     }
